@@ -189,6 +189,7 @@ theorem nwdaymask_monthly (f : YearFacts r y info) (hf : r.freq = 1) (nwl : List
     (hnw : r.bynweekday = some nwl) (hok : ∀ wn ∈ nwl, (0 ≤ wn.1 ∧ wn.1 ≤ 6) ∧ wn.2 ≠ 0)
     (month : Int) (hm1 : 1 ≤ month) (hm12 : month ≤ 12) :
     ∃ mask, buildNwdaymask r info.yearlen info.mrange info.wdaymask month = .ok (some mask) ∧
+      (mask.length : Int) = info.yearlen ∧
       ∀ j : Int, 0 ≤ j → j < info.yearlen →
         Py.getIdx mask j = .ok (if ∃ wn ∈ nwl, marks info (daysBeforeMonth y month)
             (daysBeforeMonth y month + daysInMonth y month - 1) j wn then 1 else 0) := by
@@ -215,12 +216,12 @@ theorem nwdaymask_monthly (f : YearFacts r y info) (hf : r.freq = 1) (nwl : List
       rw [this, hs]
     have hlen0 : ((List.replicate info.yearlen.toNat (0 : Int)).length : Int) = info.yearlen := by
       rw [List.length_replicate]; omega
-    obtain ⟨mask, h1, _, h3⟩ := markNth_fold f (daysBeforeMonth y month)
+    obtain ⟨mask, h1, hl2, h3⟩ := markNth_fold f (daysBeforeMonth y month)
       (daysBeforeMonth y month + daysInMonth y month - 1) hdbm0 (by omega) (nw0 :: nws) _ hlen0 hok
     simp only [pure, Except.pure, List.isEmpty_cons, Bool.false_eq_true, ↓reduceIte, List.foldlM_cons,
       List.foldlM_nil, bind, Except.bind, e1, e2] at h1 ⊢
     rw [h1]
-    refine ⟨mask, rfl, ?_⟩
+    refine ⟨mask, rfl, by rw [hl2]; exact hlen0, ?_⟩
     intro j hj0 hj1
     rw [h3 j hj0 hj1]
     split
